@@ -161,6 +161,58 @@ func clique(ls []int) [][]int {
 	return out
 }
 
+// genBigGroup: one at-most-one group of 5..7 variables (pairwise encoded), one or two long clauses over most of the
+// group with some members negated and some outsiders, and a few short clauses linking members and outsiders: after
+// detection the cardinality constraint is the reason of most propagations, conflicts are analysed through it, and
+// counting keeps the search going after each of them.
+func genBigGroup(t *rapid.T) Case {
+	k := gen.Uniform(t, 5, 7, "k")
+	c := Case{Front: "cnf", N: k + gen.Uniform(t, 2, 5, "others"), Shapes: []string{"one-big-group"}}
+	perm := rapid.Permutation(seq(1, c.N)).Draw(t, "perm")
+	group, others := perm[:k], perm[k:]
+	for i := range group {
+		for j := i + 1; j < k; j++ {
+			c.Clauses = append(c.Clauses, []int{-group[i], -group[j]})
+		}
+	}
+	for i, m := 0, rapid.IntRange(1, 2).Draw(t, "long"); i < m; i++ {
+		var cl []int
+		for _, g := range group {
+			switch rapid.IntRange(0, 5).Draw(t, "how") {
+			case 0: // left out
+			case 1:
+				cl = append(cl, -g)
+			default:
+				cl = append(cl, g)
+			}
+		}
+		for _, o := range others {
+			if gen.Chance(t, 1, 3, "outsider") {
+				if rapid.Bool().Draw(t, "neg") {
+					o = -o
+				}
+				cl = append(cl, o)
+			}
+		}
+		if len(cl) >= 2 {
+			c.Clauses = append(c.Clauses, cl)
+		}
+	}
+	for i, m := 0, gen.Uniform(t, 2, 7, "links"); i < m; i++ {
+		c.Clauses = append(c.Clauses, gen.DistinctLits(t, c.N, gen.Uniform(t, 2, 3, "llen"), "l"))
+	}
+	c.Clauses = rapid.Permutation(c.Clauses).Draw(t, "order")
+	return c
+}
+
+func seq(lo, hi int) []int {
+	var s []int
+	for i := lo; i <= hi; i++ {
+		s = append(s, i)
+	}
+	return s
+}
+
 func genCase(front string) func(t *rapid.T) Case {
 	return func(t *rapid.T) Case {
 		c := Case{Front: front, N: gen.Uniform(t, 3, 9, "n")}
@@ -257,8 +309,9 @@ func min(a, b int) int {
 func init() {
 	tail := ": 1..4 building blocks (complete cliques of 2..5 literals of one or mixed polarity, clique minus one edge, two overlapping cliques, repeated binary clause, loose binary clauses, longer clauses, sometimes a unit clause; in a third of the cases the shared clique-rich generator over 6..12 variables, whose extra family is an at-most-one group of 5..7 variables with clauses over most of the group and clauses linking it to other variables), clause order shuffled, optional cost function; oracle = truth table of the clauses as written; the parsed problem is evaluated (without solving) from its exported data before and after DetectAtMostOne: same variables, same model set; then Solve / CountModels / Optimal after detection equal the truth; non-trivial = detection changed the problem"
 	vf.Register(
-		vf.Sub[Case]{Name: "cnf", Quick: 15000, Thorough: 200000, Gen: genCase("cnf"), Check: check, Floor: 0.25, Rule: "CNF n in 3..9 via ParseSliceNb" + tail},
-		vf.Sub[Case]{Name: "pb", Quick: 8000, Thorough: 100000, Gen: genCase("pb"), Check: check, Floor: 0.2, Rule: "the same clauses given as PropClause constraints plus 0..2 PB constraints via ParsePBConstrs" + tail},
+		vf.Sub[Case]{Name: "cnf", Quick: 4000, Thorough: 200000, Gen: genCase("cnf"), Check: check, Floor: 0.25, Rule: "CNF n in 3..9 via ParseSliceNb" + tail},
+		vf.Sub[Case]{Name: "big-group-search", Quick: 8000, Thorough: 300000, Gen: genBigGroup, Check: check, Floor: 0.8, Rule: "CNF over 7..12 variables via ParseSliceNb: one pairwise-encoded at-most-one group of 5..7 variables, 1..2 long clauses over most of the group (members of either sign, some outsiders), 2..7 clauses of 2..3 literals over all variables, clause order shuffled: the detected constraint is the reason of most propagations during the search that Solve and CountModels perform after detection" + tail},
+		vf.Sub[Case]{Name: "pb", Quick: 2000, Thorough: 100000, Gen: genCase("pb"), Check: check, Floor: 0.2, Rule: "the same clauses given as PropClause constraints plus 0..2 PB constraints via ParsePBConstrs" + tail},
 	)
 }
 
